@@ -9,6 +9,10 @@ package main
 // characters (werr / perr: plain, Timeout(), wrapping sentinels, the subscriber's own context error ...; a Put
 // error alone or together with the message), and the scenarios of the joe family that do not script the replayer
 // wrapper also run against a Joe with no Replayer at all (noReplayer).
+// Also in every class: some subscribers are HTTP sessions that come in through sse.Server.ServeHTTP (OnSession scripted),
+// some publications go through Server.Publish (sprinkleServer), some writers forward to a real *sse.Session
+// (sprinkleSession), some publisher threads keep ONE topics slice and rewrite it in place between calls (sprinkleReuse),
+// some subscribers present a Last-Event-ID (sprinkleIDs).
 // All randomness comes from c.R.
 
 import (
@@ -171,12 +175,37 @@ func (g *jgen) countScenario(fam, class string, s *jScenario) {
 		c.Count("parks:yes")
 	}
 	seen := map[string]bool{}
+	if s.noOnSession {
+		seen["server-without-OnSession"] = true
+	}
+	refusing := false
+	for _, v := range s.putScript {
+		refusing = refusing || v >= 100 && v < 300
+	}
 	for _, x := range s.subs {
 		for _, t := range s.pubs {
 			for _, m := range t.msgs {
-				for _, sh := range jShape(x.topics, m.topics) {
+				for _, sh := range jShape(x.effTopics(s.noOnSession), m.effTopics()) {
 					seen[sh] = true
 				}
+			}
+		}
+		if x.via&jViaServer != 0 {
+			seen["subscriber-is-a-Server-session"] = true
+			if !s.noOnSession {
+				n := strconv.Itoa(len(x.topics))
+				if len(x.topics) == 0 && x.via&jViaNil != 0 {
+					n = "nil"
+				}
+				seen["OnSession-answers-topics:"+n] = true
+			}
+		} else if len(s.subs) > 1 {
+			seen["subscriber-through-Joe.Subscribe-next-to-others"] = true
+		}
+		if x.via&jViaSession != 0 {
+			seen["writer-forwards-to-a-real-Session"] = true
+			if refusing || s.kind >= 1 && s.kind <= 3 {
+				seen["writer-forwards-to-a-real-Session+Put-may-refuse"] = true
 			}
 		}
 		fail := false
@@ -251,6 +280,12 @@ func (g *jgen) countScenario(fam, class string, s *jScenario) {
 	}
 	for _, t := range s.pubs {
 		for _, m := range t.msgs {
+			if m.flags&jPubServer != 0 {
+				seen["Server.Publish:topics:"+strconv.Itoa(len(m.topics))] = true
+			}
+			if m.flags&jPubReuse != 0 && (s.kind == 0 || s.kind == 4) {
+				seen["publisher-rewrites-its-one-topics-slice-in-place"] = true
+			}
 			if m.same != 0 {
 				seen["same-message-object-published-again"] = true
 				if s.kind >= 1 && s.kind <= 3 && s.auto != 0 {
@@ -352,6 +387,60 @@ func (g *jgen) sprinkleIDs(fam string, s *jScenario) {
 	}
 }
 
+// sprinkleServer: in one scenario of five of every class some subscribers are HTTP sessions of an sse.Server in front of
+// the scenario's Joe (OnSession answers the subscriber's topics), and some publications go through Server.Publish.
+// What Joe owes a subscription or a publication does not depend on who built it.
+func (g *jgen) sprinkleServer(fam string, s *jScenario) {
+	if fam != "joe" || !g.r.Chance(1, 5) {
+		return
+	}
+	for i := range s.subs {
+		if s.subs[i].via == 0 && g.r.Bool() {
+			s.subs[i].via = jViaServer
+			if g.r.Bool() {
+				s.subs[i].via |= jViaSession
+			}
+			if g.r.Bool() {
+				s.subs[i].via |= jViaNil
+			}
+		}
+	}
+	for t := range s.pubs {
+		for k := range s.pubs[t].msgs {
+			if g.r.Bool() {
+				s.pubs[t].msgs[k].flags |= jPubServer
+			}
+		}
+	}
+}
+
+// sprinkleSession: in one scenario of four some writers forward what they are handed to a real *sse.Session.
+func (g *jgen) sprinkleSession(fam string, s *jScenario) {
+	if fam != "joe" || !g.r.Chance(1, 4) {
+		return
+	}
+	for i := range s.subs {
+		if g.r.Chance(2, 3) {
+			s.subs[i].via |= jViaSession
+		}
+	}
+}
+
+// sprinkleReuse: in one scenario of five (where no real replayer keeps the topics it is given) some publisher threads
+// keep one topics slice: every call passes the same slice object, rewritten in place after the previous call's round.
+func (g *jgen) sprinkleReuse(fam string, s *jScenario) {
+	if fam != "joe" || s.kind != 0 && s.kind != 4 || !g.r.Chance(1, 5) {
+		return
+	}
+	for t := range s.pubs {
+		if g.r.Chance(2, 3) {
+			for k := range s.pubs[t].msgs {
+				s.pubs[t].msgs[k].flags |= jPubReuse
+			}
+		}
+	}
+}
+
 func jNoFault(script []uint64) bool {
 	for _, v := range script {
 		if v == 98 || v >= 100 {
@@ -411,7 +500,10 @@ func (g *jgen) emit(fam, class string, s *jScenario) {
 	g.sprinkleBlank(s)
 	g.sprinkleSame(s)
 	g.sprinkleIDs(fam, s)
+	g.sprinkleServer(fam, s)
+	g.sprinkleSession(fam, s)
 	g.noReplayer(fam, s)
+	g.sprinkleReuse(fam, s)
 	g.countScenario(fam, class, s)
 	g.c.Emit(val.L(s.enc()))
 }
@@ -1159,6 +1251,153 @@ func (g *jgen) tplShapes(maxSubs int) (*jScenario, string) {
 	return s, name
 }
 
+// ---- (g) sessions of an sse.Server next to direct subscribers -------------------------------------------
+//
+// Subscribers come in through Server.ServeHTTP: OnSession answers each its own topic list of length 0 (nil or empty:
+// the default topic), 1, 2 or 3 - or the Server has no OnSession at all - next to subscribers that call Joe.Subscribe
+// themselves; publications go through Server.Publish without topics (the default topic), with explicit topics (the
+// default topic among them or not) and through Joe.Publish.  The oracle is the one of every class: a message goes to
+// exactly the subscribers whose topics intersect its topics.
+
+func (g *jgen) tplServer(n, maxSubs int) *jScenario {
+	s := g.base()
+	s.noOnSession = n%5 == 4
+	nsubs := 2 + g.r.Intn(maxSubs-1)
+	for i := 0; i < nsubs; i++ {
+		x := jSubSpec{via: jViaServer}
+		l := g.r.Intn(4) // the length of the list OnSession answers
+		if i == 0 {
+			l = n % 4
+		}
+		if i == 1 {
+			l = (n / 4) % 4
+		}
+		switch {
+		case g.r.Chance(1, 4):
+			// a subscriber of its own, on the default topic or another
+			x.via = 0
+			x.topics = g.topics(1+g.r.Intn(2), 3)
+		case s.noOnSession || l == 0:
+			if g.r.Bool() {
+				x.via |= jViaNil
+			}
+		default:
+			x.topics = g.topics(l, 4)
+		}
+		if g.r.Bool() {
+			x.via |= jViaSession
+		}
+		if i > 0 && g.r.Bool() {
+			x.start = jEv(34, uint64(i-1)) // one after the other
+		}
+		if g.r.Chance(1, 8) {
+			x.script = append(jZeros(g.r.Intn(5)), g.werr())
+			x.selfCancel = g.r.Bool()
+		}
+		if g.r.Chance(1, 8) {
+			x.hasCancel, x.cancel = true, jEvN(38, uint64(i), uint64(1+g.r.Intn(2)))
+		}
+		if g.r.Chance(1, 6) {
+			x.idopt = g.someID()
+		}
+		s.subs = append(s.subs, x)
+	}
+	var start jCond
+	if g.r.Chance(4, 5) {
+		start = jEvN(34, jAny, uint64(nsubs))
+	}
+	for t, nt := 0, 1+g.r.Intn(2); t < nt; t++ {
+		pt := jPubSpec{start: start}
+		reuse := g.r.Chance(1, 4)
+		for k, m := 0, 2+g.r.Intn(3); k < m; k++ {
+			ms := jMsgSpec{}
+			if g.r.Chance(2, 3) {
+				ms.flags = jPubServer
+				switch g.r.Intn(6) {
+				case 0, 1: // no topics: the default topic
+				case 2:
+					ms.topics = []uint64{0} // the default topic, named
+				default:
+					ms.topics = g.topics(1+g.r.Intn(2), 4)
+				}
+			} else {
+				ms.topics = g.topics(1+g.r.Intn(2), 4)
+				if g.r.Chance(1, 3) {
+					ms.topics = []uint64{0}
+				}
+			}
+			if reuse {
+				ms.flags |= jPubReuse
+			}
+			pt.msgs = append(pt.msgs, ms)
+		}
+		s.pubs = append(s.pubs, pt)
+	}
+	if g.r.Chance(1, 4) {
+		// a session that joins later
+		x := jSubSpec{via: jViaServer, start: jEv(15, uint64(g.r.Intn(jToks(s))))}
+		if !s.noOnSession {
+			x.topics = g.topics(g.r.Intn(3), 4)
+		}
+		s.subs = append(s.subs, x)
+	}
+	s.shuts = []jShutSpec{jFinalShut()}
+	return s
+}
+
+// ---- (h) a publisher that keeps ONE topics slice ---------------------------------------------------------
+//
+// Every Publish call of a thread passes the same slice object; between two calls - once the delivery round of the
+// previous one is over - the publisher rewrites its elements in place (same length: every element replaced; shorter:
+// resliced; longer: a new buffer).  Nobody subscribes in between (or, sometimes, somebody does).  The subscribers'
+// topic sets make consecutive publications go to different recipients.
+
+func (g *jgen) tplReuse(maxSubs int) *jScenario {
+	s := g.base()
+	universe := 2 + g.r.Intn(3)
+	nsubs := 2 + g.r.Intn(maxSubs-1)
+	for i := 0; i < nsubs; i++ {
+		x := jSubSpec{topics: []uint64{uint64(i % universe)}}
+		if g.r.Chance(1, 4) {
+			x.topics = g.topics(2, universe)
+		}
+		if g.r.Chance(1, 10) {
+			x.script = append(jZeros(g.r.Intn(5)), g.werr())
+			x.selfCancel = g.r.Bool()
+		}
+		s.subs = append(s.subs, x)
+	}
+	for t, nt := 0, 1+g.r.Intn(2); t < nt; t++ {
+		pt := jPubSpec{start: jEvN(34, jAny, uint64(nsubs))}
+		l := 1 + g.r.Intn(2)
+		var prev []uint64
+		for k, m := 0, 3+g.r.Intn(4); k < m; k++ {
+			ll := l
+			if g.r.Chance(1, 6) {
+				ll = 1 + g.r.Intn(3)
+			}
+			ms := jMsgSpec{topics: g.topics(ll, universe), flags: jPubReuse}
+			for try := 0; try < 4 && len(prev) == len(ms.topics) && prev[0] == ms.topics[0]; try++ {
+				ms.topics = g.topics(ll, universe) // rather a different list than the one before
+			}
+			if g.r.Chance(1, 4) {
+				ms.flags |= jPubServer
+			}
+			prev = ms.topics
+			pt.msgs = append(pt.msgs, ms)
+		}
+		s.pubs = append(s.pubs, pt)
+	}
+	if g.r.Chance(1, 5) {
+		s.subs = append(s.subs, jSubSpec{topics: g.topics(1, universe), start: jEv(15, uint64(g.r.Intn(jToks(s))))})
+	}
+	if g.r.Chance(1, 6) {
+		s.shuts = append(s.shuts, jShutSpec{start: jEv(12, uint64(g.r.Intn(jToks(s))))})
+	}
+	s.shuts = append(s.shuts, jFinalShut())
+	return s
+}
+
 // ---- random mix -------------------------------------------------------------------------------------
 
 func (g *jgen) randCondSub(i uint64, ntok, nsubs int) jCond {
@@ -1306,6 +1545,12 @@ func genJoe(c *Ctx) {
 	for n := 0; n < 30*mult; n++ {
 		s, name := g.tplShapes(maxSubs)
 		g.emit("joe", "message-shapes/"+name, s)
+	}
+	for n := 0; n < 40*mult; n++ {
+		g.emit("joe", "server-sessions", g.tplServer(n, maxSubs))
+	}
+	for n := 0; n < 30*mult; n++ {
+		g.emit("joe", "publisher-keeps-one-topics-slice", g.tplReuse(maxSubs))
 	}
 }
 
